@@ -129,7 +129,8 @@ def insert_raise(ops, pos):
         i = 0
         while i <= len(lst):
             if counter[0] == pos:
-                lst.insert(i, ['raise'])
+                # user code may be interrupted by any BaseException (KeyboardInterrupt, SystemExit), not only by an Exception
+                lst.insert(i, ['raise'] if pos % 2 == 0 else ['raise', 'base'])
                 counter[0] = -10 ** 9
                 return True
             if i == len(lst):
@@ -210,7 +211,7 @@ def interp(G, ops):
         elif k == 'toc':
             G.toc()
         elif k == 'raise':
-            raise pgm.UserBoom()
+            raise (pgm.UserBoom() if len(o) == 1 else pgm.UserAbort())
         elif k == 'repeat':
             with G.repeat(o[1]):
                 interp(G, o[2])
@@ -235,7 +236,7 @@ def run_impl(cfgd, ops):
         try:
             with G:
                 interp(G, ops)
-        except (ValueError, FileNotFoundError, pgm.UserBoom) as e:
+        except (ValueError, FileNotFoundError, pgm.UserBoom, pgm.UserAbort) as e:
             raised = pgm.EXC_KIND[type(e).__name__]
     return pgm.read_file(fn), raised, float(G.dwell_time)
 
